@@ -77,8 +77,10 @@ def seeded():
            "|---|---|---|---|---|"]
     for m in rows:
         out.append(f"| `{m['id']}` | {m['property']} | {m['what']} | {m['verdict']} | {m.get('obligation', '')} |")
-    caught = sum(1 for m in rows if m["verdict"].startswith("caught"))
-    out.append(f"\n{caught} of {len(rows)} seeded changes are caught by the quick tier of the property they target.")
+    real = [m for m in rows if not m["id"].endswith("_benign")]
+    caught = sum(1 for m in real if m["verdict"].startswith("caught"))
+    out.append(f"\n{caught} of {len(real)} property-breaking seeded changes are caught by the quick tier of the property they "
+               f"target; {len(rows) - len(real)} benign variant(s) (false-alarm guards) are not flagged.")
     notes = os.path.join(ROOT, "seeded", "NOTES.md")
     if os.path.exists(notes):
         out.append("\n" + open(notes).read())
